@@ -48,6 +48,34 @@ type Table struct {
 	metadataMu     sync.Mutex // Protects metadataLoaded field and loadFooter calls
 }
 
+// tableFileRefs counts the Table objects in this process per table file. A file
+// can be represented by several Table objects at once: a database reopened from a
+// checkpoint (a redeployed operator) gets new objects for files that the replaced
+// database's objects still represent. Only the cleanup of the last object may
+// delete the file.
+var tableFileRefs = struct {
+	mu   sync.Mutex
+	refs map[string]int
+}{refs: make(map[string]int)}
+
+func retainTableFile(uri string) {
+	tableFileRefs.mu.Lock()
+	defer tableFileRefs.mu.Unlock()
+	tableFileRefs.refs[uri]++
+}
+
+// releaseTableFile returns true when no other Table object represents the file.
+func releaseTableFile(uri string) (last bool) {
+	tableFileRefs.mu.Lock()
+	defer tableFileRefs.mu.Unlock()
+	tableFileRefs.refs[uri]--
+	if tableFileRefs.refs[uri] > 0 {
+		return false
+	}
+	delete(tableFileRefs.refs, uri)
+	return true
+}
+
 // NewTable initializes a new, empty table
 func NewTable(file storage.File) *Table {
 	t := &Table{
@@ -57,11 +85,19 @@ func NewTable(file storage.File) *Table {
 		size:        0,
 	}
 
-	runtime.AddCleanup(t, func(f func() error) {
-		if err := f(); err != nil {
+	type CleanupParams struct {
+		deleteFunc func() error
+		uri        string
+	}
+	retainTableFile(file.URI())
+	runtime.AddCleanup(t, func(p CleanupParams) {
+		if !releaseTableFile(p.uri) {
+			return
+		}
+		if err := p.deleteFunc(); err != nil {
 			slog.Error("table cleanup", "err", err)
 		}
-	}, file.CreateDeleteFunc())
+	}, CleanupParams{file.CreateDeleteFunc(), file.URI()})
 
 	return t
 }
@@ -149,7 +185,11 @@ func NewTableFromDocument(fs storage.FileSystem, dataOwnership kv.DataOwnership,
 		uri:           doc.URI,
 	}
 
+	retainTableFile(doc.URI)
 	runtime.AddCleanup(t, func(p CleanupParams) {
+		if !releaseTableFile(p.uri) {
+			return
+		}
 		canDelete, err := p.dataOwnership.ExclusivelyOwnsTable(p.uri, p.startKey, p.endKey)
 		if err != nil {
 			slog.Error("failed determining exclusive ownership, not deleting", "err", err, "uri", p.uri)
